@@ -211,14 +211,14 @@ func c08FieldRows() ([]c08FieldRow, error) {
 // ---- extensions ----
 
 type declView struct {
-	Types   map[string]string            // type name -> rendered type expression (structs: "struct")
-	Fields  map[string][]fieldView       // struct type -> fields in order
+	Types   map[string]string      // type name -> rendered type expression (structs: "struct")
+	Fields  map[string][]fieldView // struct type -> fields in order
 	Imports []string
 	Consts  []string
 }
 type fieldView struct {
 	Name, Type, TagName, Other, Doc string
-	Omit, Pointer                  bool
+	Omit, Pointer                   bool
 }
 
 func viewOf(src string) (*declView, error) {
@@ -419,7 +419,6 @@ func c08ExtMask(e c08Ext) (int, string, error) {
 	}
 	return mask, strings.Join(why, "; "), nil
 }
-
 
 // ---- composite shapes (slices, maps, references) ----
 
